@@ -129,6 +129,7 @@ type fileNode struct {
 type symlinkNode struct {
 	link     string // link is the symbolic link value.
 	baseNode        // baseNode is the common structure of directories, files and symbolic links.
+	nlink    int    // nlink is the number of hardlinks to this symlinkNode.
 }
 
 // baseNode is the common structure of directories, files and symbolic links.
